@@ -292,10 +292,9 @@ func runSim(c *proto.Corpus, e *proto.Expected, seed uint64, proc, runs int, bui
 	}
 	res.SigAll = 0xcbf29ce484222325
 	used := map[int]bool{}
-	leaks := 0
 	for i := 0; i < runs; i++ {
-		if leaks > 20 {
-			break // leaked library goroutines keep spinning in this process: start a fresh one
+		if simrt.Background() > 100 {
+			break // too many background goroutines of the library alive: continue in a fresh process
 		}
 		if budgetMs > 0 && i%16 == 0 && time.Since(t0).Milliseconds() > budgetMs {
 			break
@@ -357,11 +356,9 @@ func runSim(c *proto.Corpus, e *proto.Expected, seed uint64, proc, runs int, bui
 		probe("panic_while_others_inflight", o.sim.PanicOver)
 		probe("lock_contention", o.sim.Blocked > 0)
 		probe("stalled_task_released_last", o.sim.Unstalled)
-		probe("library_goroutine_leaked", o.sim.Leaked)
+		probe("run_ended_with_library_goroutines_waiting", o.sim.Leaked)
 		res.Faults["library_goroutines_spawned"] += int(o.sim.Spawned)
-		if o.sim.Leaked {
-			leaks++
-		}
+		res.Probes["library_goroutines_carried_over_max"] = max(res.Probes["library_goroutines_carried_over_max"], int(o.sim.Background))
 		probe("truncated_event_log", o.sim.Truncated)
 		nontrivial := (len(rec.Tasks) >= 2 && o.sim.Overlap && o.sim.Switches >= 1) || (rec.Policy.Kind == "seq" && o.stats.ops >= 2)
 		if free {
